@@ -582,22 +582,35 @@ Definition mon_C17 (c : cfg) (tr : trace) : list failure :=
 
 (* ---------- C18 (through the public API) ---------- *)
 Definition timeout_key : str := [103; 114; 112; 99; 45; 116; 105; 109; 101; 111; 117; 116].
+Definition tdl_key : str := [116; 100; 108].
+Definition c18_judge (a r : N) (vals : list str) (dl : option Z) (tmd : option mdt) : list failure :=
+  let exp := spec_from_headers vals in
+  (* the harness marks a tunnel opened under a (far) deadline with the tunnel-metadata key "tdl": an
+     RPC without grpc-timeout then inherits that deadline; one with a (nearer) grpc-timeout must
+     still get exactly its own *)
+  let tunnel_deadline := existsb (fun kv => str_eqb (fst kv) tdl_key) (omd tmd) in
+  match exp, dl with
+  | None, None => []
+  | Some d, Some d' => if (d <? 4611686018427387904)%Z then (if Z.eqb d d' then [] else fl 1801 a (zr r) d') else []
+  | None, Some _ => if tunnel_deadline then [] else fl 1802 a (zr r) 0
+  | _, _ => fl 1802 a (zr r) 0
+  end.
+
+Definition timeout_vals (m : mdt) : list str :=
+  match find (fun kv => str_eqb (fst kv) timeout_key) m with Some (_, vs) => vs | None => [] end.
+
 Definition mon_C18 (tr : trace) : list failure :=
+  (* against what the caller attached (real client) *)
   flat_map (fun x => match x with (r, _, _, md, cmd, _, _, _) =>
-      let all := md_join (omd md) (omd cmd) in
-      let vals := match find (fun kv => str_eqb (fst kv) timeout_key) all with Some (_, vs) => vs | None => [] end in
-      let exp := spec_from_headers vals in
+      let vals := timeout_vals (md_join (omd md) (omd cmd)) in
       flat_map (fun e => match e with
-         | (a, HStart r' _ _ dl _ _ _) =>
-             if N.eqb r r' then
-               match exp, dl with
-               | None, None => []
-               | Some d, Some d' => if (d <? 4611686018427387904)%Z then (if Z.eqb d d' then [] else fl 1801 a (zr r) d') else []
-               | _, _ => fl 1802 a (zr r) 0
-               end
-             else []
+         | (a, HStart r' _ _ dl tmd _ _) => if N.eqb r r' then c18_judge a r vals dl tmd else []
          | _ => [] end) tr
-    end) (rpcs_of tr).
+    end) (rpcs_of tr) ++
+  (* against the request metadata the handler itself received (also covers raw tunnel clients) *)
+  flat_map (fun e => match e with
+     | (a, HStart r _ md dl tmd _ _) => c18_judge a r (timeout_vals (omd md)) dl tmd
+     | _ => [] end) tr.
 
 (* ---------- a panic or a duplicate handler start is always a failure (C09 / C08) ---------- *)
 Definition mon_panic (tr : trace) : list failure :=
